@@ -14,6 +14,7 @@ pub enum V {
     S(String),
     FL(Vec<f64>),
     TL(Vec<TwoFloat>),
+    SL(Vec<String>),
 }
 
 #[derive(Clone, Debug)]
@@ -730,7 +731,7 @@ pub fn exec(op: &str, sp: &str, v: &[V]) -> Out {
             _ => panic!("harness: bad request"),
         }),
         #[cfg(feature = "serde")]
-        "ser" | "de" | "de_json" | "ser_json" => crate::serde_ops::exec(op, sp, v),
+        "ser_json" | "ser_tokens" | "rt_json" | "de_seq" | "de_map" | "de_json" => crate::serde_ops::exec(op, sp, v),
         o if o.starts_with("h_") => Out::None,
         _ => panic!("harness: unknown op {}", op),
     }
